@@ -1953,6 +1953,14 @@ func panicToError(r any) error {
 }
 
 func (query *Query) execAndPostProcess() (result any, err error) {
+	// post-processors evaluate deferred expressions (AWAIT): a panic raised
+	// there is reported like a panic raised while the rows are built
+	defer func() {
+		if r := recover(); r != nil {
+			result = nil
+			err = panicToError(r)
+		}
+	}()
 	rs, err := query.exec()
 	if err != nil {
 		return nil, err
